@@ -352,17 +352,148 @@ for _n in (0, 1, 2, 3):
                            kind="bounded", bound="sequence length <= 3 (one harness per length); bytes and both "
                            "optional bounds (full usize domain) symbolic",
                            inputs=RANGE_INPUTS_STR, replay=_range_replay(_n, lambda e: seed_str(bytes(e)))))
-for _n in (0, 1, 2, 3):
-    C11_UNITS.append(KUnit(f"c11_list_range_len{_n}", "eval_range", EVAL, ["eval::get_list_range_index"],
-                           kind="bounded", bound="sequence length <= 3 (one harness per length), elements Int; "
-                           "payloads and both optional bounds (full usize domain) symbolic",
-                           inputs=RANGE_INPUTS_LIST, replay=_range_replay(_n, seed_list)))
+def _list_range_cells_replay(n, cells):
+    """All defined cells of the group print `true`; then the first out-of-domain cell must stop with exit 103."""
+    def mk(v):
+        elems = [v["e0"], v["e1"], v["e2"]][:n]
+        script = f"s := {seed_list(elems)};\nr := [];\n"
+        n_def, bad = 0, None
+        for st, en in cells:
+            a = 0 if st is None else st
+            b = n if en is None else en
+            rng = f"s[{'' if st is None else st}:{'' if en is None else en}]"
+            if a <= b <= n:
+                script += f"r = {rng};\nprint(r == {seed_list(elems[a:b])});\nprint(r === s);\n"
+                n_def += 1
+            elif bad is None:
+                bad = rng
+        script += f"print(s == {seed_list(elems)});\n"
+        if bad:
+            script += f"print({bad});\n"
+        want = "true\nfalse\n" * n_def + "true\n"
+
+        def judge(rc, out, err):
+            c = _crashed(rc)
+            if c:
+                return c
+            if out != want:
+                return f"expected stdout {want!r}"
+            if rc != (103 if bad else 0):
+                return "expected a reported error for the out-of-domain range" if bad else "expected exit 0"
+            return None
+        return script, judge
+    return mk
+
+
+def _cells(n, starts):
+    vals = [None] + list(range(n + 2))
+    return [(st, en) for st in starts for en in vals]
+
+
+LIST_RANGE_INPUTS = [("e0", "i64"), ("e1", "i64"), ("e2", "i64")]
+BOUND_LIST_RANGE = ("sequence length in {0, 1, 3}, elements Int (payloads symbolic); each bound omitted or a "
+                    "CONCRETE number in 0..=len+1 (all combinations); bounds above len+1 only for strings")
+_LIST_RANGE_GROUPS = [("c11_list_range_len0", 0, [None, 0, 1]),
+                      ("c11_list_range_len1_from_omitted_or_0", 1, [None, 0]),
+                      ("c11_list_range_len1_from_1_or_2", 1, [1, 2])]
+_LIST_RANGE_GROUPS += [(f"c11_list_range_len3_from_{'omitted' if st is None else st}", 3, [st])
+                       for st in (None, 0, 1, 2, 3, 4)]
+for _name, _n, _starts in _LIST_RANGE_GROUPS:
+    C11_UNITS.append(KUnit(_name, "eval_range", EVAL, ["eval::get_list_range_index"], kind="bounded",
+                           bound=BOUND_LIST_RANGE, inputs=LIST_RANGE_INPUTS,
+                           replay=_list_range_cells_replay(_n, _cells(_n, _starts))))
+
 CONCAT_STR_INPUTS = [(p + s, t) for p in "xy" for s, t in (("b0", "bool"), ("b1", "bool"), ("0", "u8"), ("1", "u8"))] \
-    + [("l", "usize"), ("c", "usize")]
-CONCAT_LIST_INPUTS = [(p + s, t) for p in "xy" for s, t in (("b0", "bool"), ("b1", "bool"), ("0", "i64"), ("1", "i64"))] \
     + [("l", "usize"), ("c", "usize")]
 C11_UNITS += [
     KUnit("c11_concat_str", "eval_range", EVAL, ["eval::apply_binary_operation (Sum, Str x Str)"],
           kind="bounded", bound="both strings of length <= 2, bytes symbolic",
           inputs=CONCAT_STR_INPUTS, replay=_concat_replay(lambda e: seed_str(bytes(e)), False)),
 ]
+
+
+def _concat_empty_replay(v):
+    script = ("a := [];\nb := [];\nr := a + b;\nprint(r == []);\nprint(r === a);\nprint(r === b);\n"
+              "q := a + a;\nprint(q == []);\nprint(q === a);\n")
+    return script, _expect_lines(["true", "false", "false", "true", "false"])
+
+
+BOUND_CONCAT_LIST = ("both lists EMPTY (any cell with an element does not finish symbolic execution in 300 s: "
+                     "the operator drops temporary Vec<SourcedValue> copies)")
+C11_UNITS += [
+    KUnit("c11_concat_list_empty_empty", "eval_range", EVAL, ["eval::apply_binary_operation (Sum, List x List)"],
+          kind="bounded", bound=BOUND_CONCAT_LIST,
+          inputs=[("x0", "i64"), ("x1", "i64"), ("y0", "i64"), ("y1", "i64"), ("l", "usize"), ("c", "usize")],
+          replay=_concat_empty_replay),
+    KUnit("c11_concat_list_empty_with_itself", "eval_range", EVAL,
+          ["eval::apply_binary_operation (Sum, List x List, same list twice)"],
+          kind="bounded", bound=BOUND_CONCAT_LIST,
+          inputs=[("x0", "i64"), ("x1", "i64"), ("l", "usize"), ("c", "usize")],
+          replay=_concat_empty_replay),
+]
+
+
+# ---------------------------------------------------------------------------
+# C07 (leaf): iteration snapshot
+# ---------------------------------------------------------------------------
+def _pairs_replay(n, lit):
+    def mk(v):
+        elems = [v["e0"], v["e1"], v["e2"]][:n]
+        script = (f"s := {lit(elems)};\ni := 0;\nfor p in s {{\n    print(p == [i, s[i]]);\n    i += 1;\n}}\n"
+                  "print(i);\n")
+        return script, _expect_lines(["true"] * n + [str(n)])
+    return mk
+
+
+def _pairs_list_snapshot_replay(n):
+    def mk(v):
+        elems = [v["e0"], v["e1"], v["e2"]][:n]
+        x = seed_int(v["extra"])
+        # the body mutates the iterated list: element 0 overwritten, one element appended per iteration
+        script = (f"s := {seed_list(elems)};\nt := {seed_list(elems)};\ni := 0;\n"
+                  f"for p in s {{\n    print(p == [i, t[i]]);\n    s[0] = {x};\n    s += [{x}];\n    i += 1;\n}}\n"
+                  "print(i);\n")
+        return script, _expect_lines(["true"] * n + [str(n)])
+    return mk
+
+
+def _pairs_object_replay(v):
+    script = (f"o := {{\"b\": {seed_int(v['vb'])}, \"a\": {seed_int(v['va'])}}};\n"
+              "for p in o {\n    print(p[0]);\n}\n"
+              f"for p in o {{\n    print(p[1] == o[p[0]]);\n}}\n")
+    return script, _expect_lines(["a", "b", "true", "true"])
+
+
+def _not_iterable_replay(v):
+    script = f"for p in {seed_int(v['i'])} {{\n    print(p);\n}}\n"
+    return script, _expect_error()
+
+
+PAIRS_FN = ["eval::value_to_pairs"]
+C07_LEAF_UNITS = [
+    KUnit("c07_pairs_iterable_kinds", "eval_pairs", EVAL, PAIRS_FN, inputs=[("i", "i64"), ("b", "bool")],
+          replay=_not_iterable_replay,
+          note="kind proof over all 8 value kinds (containers empty): Ok iff string / list / object"),
+]
+for _n in (1, 2, 3):
+    C07_LEAF_UNITS.append(KUnit(f"c07_pairs_str_len{_n}", "eval_pairs", EVAL, PAIRS_FN, kind="bounded",
+                                bound="string length <= 3 (one harness per length), bytes symbolic",
+                                inputs=[("e0", "u8"), ("e1", "u8"), ("e2", "u8")],
+                                replay=_pairs_replay(_n, lambda e: seed_str(bytes(e)))))
+for _n in (1, 2, 3):
+    C07_LEAF_UNITS.append(KUnit(f"c07_pairs_list_len{_n}", "eval_pairs", EVAL, PAIRS_FN, kind="bounded",
+                                bound="list length <= 3 (one harness per length), elements Int (payloads symbolic)",
+                                inputs=[("e0", "i64"), ("e1", "i64"), ("e2", "i64"), ("extra", "i64")],
+                                replay=_pairs_list_snapshot_replay(_n)))
+C07_LEAF_UNITS.append(
+    KUnit("c07_pairs_object_ascending_keys", "eval_pairs", EVAL, PAIRS_FN, kind="bounded",
+          bound="object with exactly the keys \"a\", \"b\" inserted in descending order, values Int",
+          inputs=[("va", "i64"), ("vb", "i64")], replay=_pairs_object_replay))
+
+
+UNITS = {
+    "C06": C06_LEAF_UNITS,
+    "C10": C10_UNITS,
+    "C11": C11_UNITS,
+    "C07": C07_LEAF_UNITS,
+}
